@@ -31,7 +31,7 @@ from ..legacy import LegacyHooks, LPORT, run_helper, transports
 from ..interp import (Interp, Outcome, Opaque, Str, Slot, Tup, Const, Cmp, IsNone, Truthy, In, NotC,
                       AndC, OrC, Pred, State, ObjRef, Effect, Bound, FuncRef, ExtRef, NONE, TRUE,
                       FALSE, fold_cond, type_of, assigned_names)
-from ..loops import Region, SplitNeeded, affine_in, OneIterMixin
+from ..loops import Region, SplitNeeded, affine_in, OneIterMixin, UnrollMixin, Unbounded
 from ..poly import Sym, mk_func
 from ..model import AnalysisError, Program
 from ..report import Check, VERIF
@@ -59,7 +59,6 @@ LEGACY_SPEC = {
     'QueryPenUp': {'*': row(('query', 'QP'))},
     'QueryPRGButton': {'*': row(('query', 'QB'))},
     'sendDisableMotors': {'*': row(('command', 'EM,0,0'))},
-    'sendEnableMotors': {'*': row(('command', 'EM,{clamp0},{clamp0}'))},
     'query_enable_motors': {'*': row(('query', 'PI,E,0'), ('query', 'PI,C,1'), ('query', 'PI,E,2'),
                                      ('query', 'PI,E,1'), ('query', 'PI,A,6'))},
     'query_steps': {'*': row(('query', 'QS'))},
@@ -116,7 +115,7 @@ PAUSE_HELPERS = {'legacy': 'doTimedPause', 'ebb3': 'timed_pause'}
 ELSEWHERE = {'ebb3': {'timed_pause': 'C06-D5', 'motors_enable': 'C06-D4 + C16', 'command': 'C05',
                       'query': 'C05', 'write_nickname': 'C16', 'var_write_int32': 'C16',
                       'var_read_int32': 'C16', 'connect': 'C15'},
-             'legacy': {'doTimedPause': 'C06-D5'}}
+             'legacy': {'doTimedPause': 'C06-D5', 'sendEnableMotors': 'C06-D4'}}
 PAIRS = [('doXYMove', 'xy_move'), ('doAbsMove', 'abs_move'), ('sendDisableMotors', 'motors_disable'),
          ('sendPenDown', 'pen_lower'), ('sendPenUp', 'pen_raise'), ('PBOutValue', 'dio_b_set'),
          ('setPenDownPos', 'pen_pos_down'), ('setPenUpPos', 'pen_pos_up'),
@@ -293,7 +292,7 @@ def check_templates(ck, prog, eng, deep=False):
             n_sites += sum(len(s) for s in got)
     # helpers of the legacy module that send but are not in the table
     for name, fn in sorted(mod.functions.items()):
-        if name in LEGACY_SPEC or name in ELSEWHERE['legacy'] or not fn.params or \
+        if name in LEGACY_SPEC or name in ELSEWHERE['legacy'] or name.startswith('_') or not fn.params or \
                 fn.params[0] != 'port_name':
             continue
         seqs, _ = legacy_sequences(prog, fn, frozenset())
@@ -340,7 +339,7 @@ def check_templates(ck, prog, eng, deep=False):
                           'of the documented sequence %s' % (fn.qualname, fmt_seq(seq), fmt_seq(want)),
                           fn.loc(), key='%s::template-prefix' % fn.qualname)
     for name, fn in sorted(methods.items()):
-        if name in EBB3_SPEC or name in ELSEWHERE['ebb3'] or name.startswith('__') or \
+        if name in EBB3_SPEC or name in ELSEWHERE['ebb3'] or name.startswith('_') or \
                 name in ('disconnect', 'record_error', 'find_first', '_get_port_name',
                          'parse_version', 'min_version'):
             continue
@@ -380,23 +379,85 @@ def check_pairs(ck, prog, eng, extracted):
     ck.floor('layer pairs compared', n, 13)
 
 
-# ---------------------------------------------------------------------------- D4 motors_enable
-def check_motors_enable(ck, eng):
-    fn = eng.method('motors_enable')
-    params = fn.params[1:]
-    seqs, outs = ebb3_sequences(eng, fn, frozenset())
-    allowed = {('command', 'CU,50,0'), ('command', 'EM,{clamp1},{clamp1}'), ('query', 'QE')}
-    final = ('command', 'EM,{clamp0},{clamp1}')
+# ---------------------------------------------------------------------------- D4 clamp
+def int_literals(fn_node):
+    out = set()
+    for n in ast.walk(fn_node):
+        if isinstance(n, ast.Constant) and isinstance(n.value, int) and not isinstance(n.value, bool):
+            out.add(n.value)
+    return out
+
+
+def clamp_samples(prog, fns):
+    """Integer sample points for a piecewise-affine clamp identity: every integer between the
+    smallest and largest literal of the code (padded by 3) and two far points on each side - two
+    points in every linear piece decide identity with clamp(n, 0, 5)."""
+    lits = {0, 5}
+    for f in fns:
+        lits |= {v for v in int_literals(f.node) if abs(v) <= 40}
+    lo, hi = min(lits) - 3, max(lits) + 3
+    return list(range(lo, hi + 1)) + [-10 ** 6, -10 ** 6 - 1, 10 ** 6, 10 ** 6 + 1]
+
+
+def check_clamp_legacy(ck, prog):
+    """sendEnableMotors: for every sample resolution the text handed over is EM,c,c with
+    c = clamp(res, 0, 5) - whatever way the clamp is written (max/min, if/elif, helper)."""
+    fn = prog.func('ebb_motion.sendEnableMotors')
+    p = fn.params[1]
+    from .. import purity
+    pts = clamp_samples(prog, purity.closure(prog, [fn.qualname]))
     bad = None
-    for s in seqs:
-        if not s or s[-1] != final:
-            bad = 'does not end with the command "EM,<clamp(r1)>,<clamp(r2)>": %s' % fmt_seq(s)
-        elif any(x not in allowed for x in s[:-1]):
-            bad = 'sends something other than CU,50,0 / QE / the pre-setting EM before the final ' \
-                  'EM: %s' % fmt_seq(s)
-    ck.ob('C06-D4-clamp', fn.qualname, bad is None and bool(seqs),
-          '%s %s (every resolution slot must be clamp(int(arg),0,5))' % (fn.qualname, bad),
+    n = 0
+    for v in pts:
+        outs = run_helper(prog, fn, overrides={p: Sym.const(v)}, hooks=LegacyHooks())
+        c = clamp_expected(v)
+        want = {(('command', 'EM,%d,%d\r' % (c, c)),)}
+        got = set()
+        for o in outs:
+            got.add(tuple((e.target, render(e.args[1], fn.params[1:])) for e in transports(o.state.effects)
+                          if e.kind == 'transport'))
+        n += 1
+        if got != want and bad is None:
+            bad = 'for res = %d it hands over %s; expected %s' % (
+                v, sorted(map(fmt_seq, got)), fmt_seq(next(iter(want))))
+    ck.ob('C06-D4-clamp', fn.qualname, bad is None,
+          '%s: %s (EM resolutions must be clamped to 0..5)' % (fn.qualname, bad), fn.loc(),
+          key='%s::em-template' % fn.qualname)
+    ck.floor('clamp sample points (legacy)', n, 12)
+
+
+def check_motors_enable(ck, eng):
+    """motors_enable: for every sample pair the last command of every acknowledged path is
+    EM,clamp(r1),clamp(r2) and only CU,50,0 / QE / EM,clamp(r2),clamp(r2) precede it."""
+    fn = eng.method('motors_enable')
+    p1, p2 = fn.params[1:3]
+    from .. import purity
+    pts = clamp_samples(eng.prog, purity.closure(eng.prog, [fn.qualname]))
+    pts2 = [v for v in pts if abs(v) < 100][::2] + [pts[0], pts[-1]] + [0, 5, -1, 6]
+    bad = None
+    n = 0
+    for a in sorted(set(pts2)):
+        for b in sorted(set(pts2)):
+            outs = eng.run('motors_enable', OK, overrides={p1: Sym.const(a), p2: Sym.const(b)},
+                           inject=False)
+            c1, c2 = clamp_expected(a), clamp_expected(b)
+            final = ('command', 'EM,%d,%d' % (c1, c2))
+            allowed = {('command', 'CU,50,0'), ('command', 'EM,%d,%d' % (c2, c2)), ('query', 'QE')}
+            n += 1
+            for o in outs:
+                if o.kind == 'raise' or any(e.kind == 'summary' and e.args[0].err_set
+                                            for e in o.state.effects):
+                    continue
+                seq = [(e.target, render(e.args[1] if len(e.args) > 1 else None, []))
+                       for e in o.state.effects if e.kind == 'summary' and e.args[0].wrote]
+                if (not seq or seq[-1] != final or any(x not in allowed for x in seq[:-1])) \
+                        and bad is None:
+                    bad = 'for (%d, %d) it sends %s; expected to end with %s after at most ' \
+                          'CU,50,0 / QE / the pre-setting EM' % (a, b, fmt_seq(seq), fmt_seq([final]))
+    ck.ob('C06-D4-clamp', fn.qualname, bad is None,
+          '%s: %s (every resolution slot must be clamp(int(arg),0,5))' % (fn.qualname, bad),
           fn.loc(), key='%s::em-template' % fn.qualname)
+    ck.floor('clamp sample pairs (EBB3)', n, 100)
 
 
 # ---------------------------------------------------------------------------- D5 pause chunking
@@ -746,7 +807,75 @@ def check_pause_closed(ck, prog, eng, layer, fn, param):
     poly.INT_VARS.discard('@q')
 
 
+class LegacyUnroll(UnrollMixin, LegacyHooks):
+    unroll = True
+
+    def loop(self, interp, node, st):
+        return self.unroll_loop(interp, node, st)
+
+
+class Ebb3Unroll(UnrollMixin, EBB3Hooks):
+    unroll = True
+
+    def loop(self, interp, node, st):
+        return self.unroll_loop(interp, node, st)
+
+
+def pause_witness_search(ck, prog, eng, layer, why):
+    """The pause code is in a shape neither structural rule understands (`why`).  Interpret it for
+    concrete pause times with every loop unrolled exactly: an n whose emitted durations are not
+    in 1..750 or do not add up to n is a genuine counterexample; if none is found among the
+    samples the check cannot conclude."""
+    name = PAUSE_HELPERS[layer]
+    fn = prog.func('ebb_motion.' + name) if layer == 'legacy' else eng.method(name)
+    param = fn.params[1]
+    q = fn.qualname
+    samples = list(range(-3, 1512)) + [2249, 2250, 2251, 2999, 3000, 3001, 7500, 7501, 100001]
+    for n in samples:
+        try:
+            if layer == 'legacy':
+                outs = run_helper(prog, fn, overrides={param: Sym.const(n)}, hooks=LegacyUnroll())
+            else:
+                hk = Ebb3Unroll(eng, inject=False, exclude=name)
+                outs = eng.run(name, OK, overrides={param: Sym.const(n)}, hooks=hk)
+        except Unbounded:
+            ck.ob('C06-D5-pause-sum', '%s n=%d' % (q, n), False,
+                  '%s does not finish emitting for a pause of %d ms' % (q, n), fn.loc(),
+                  key='%s::sum' % q)
+            return
+        for o in outs:
+            if o.kind == 'raise':
+                continue
+            if any(e.kind == 'summary' and e.args[0].err_set for e in o.state.effects):
+                continue
+            if any(nt[0] == 'loop-havoc' for nt in o.state.notes) or o.state.path:
+                continue      # not an exact run for this n (a loop was summarised): no verdict
+            sent = transports(o.state.effects) if layer == 'legacy' else [
+                e for e in o.state.effects if e.kind == 'summary' and e.args[0].wrote]
+            ds = [emitted_duration(e, layer) for e in sent]
+            if any(d is None or not d.is_const() for d in ds):
+                raise AnalysisError('%s: %s; and for n=%d an emitted text is not a literal '
+                                    'SM,<d>,0,0' % (q, why, n))
+            vals = [int(d.const_value()) for d in ds]
+            want = max(n, 0)
+            if any(not 1 <= v <= MAX_CHUNK for v in vals) or sum(vals) != want:
+                ck.ob('C06-D5-pause-sum', '%s n=%d' % (q, n), False,
+                      '%s: a pause of %d ms is emitted as zero-moves of %s ms (each must lie in '
+                      '1..%d and they must add up to %d)' % (q, n, vals[:8], MAX_CHUNK, want),
+                      fn.loc(), key='%s::sum' % q)
+                return
+    raise AnalysisError('%s: %s; no counterexample among %d sampled pause times; cannot conclude'
+                        % (q, why, len(samples)))
+
+
 def check_pause(ck, prog, eng, layer):
+    try:
+        return check_pause_structural(ck, prog, eng, layer)
+    except AnalysisError as exc:
+        pause_witness_search(ck, prog, eng, layer, str(exc))
+
+
+def check_pause_structural(ck, prog, eng, layer):
     name = PAUSE_HELPERS[layer]
     if layer == 'legacy':
         fn = prog.func('ebb_motion.' + name)
@@ -923,6 +1052,7 @@ def analyse(ck, prog, deep=False):
         extracted = check_templates(ck, prog, eng, deep)
         check_pairs(ck, prog, eng, extracted)
         check_motors_enable(ck, eng)
+        check_clamp_legacy(ck, prog)
         for layer in ('legacy', 'ebb3'):
             check_pause(ck, prog, eng, layer)
         check_lm_suppression(ck, prog)
